@@ -99,6 +99,14 @@ func (p c11Point) String() string {
 
 var c11TagCombos = [][2]string{{"a", "x"}, {"a", "y"}, {"b", "x"}, {"b", "y"}, {"a", ""}, {"", "x"}, {"", ""}}
 
+// thorough adds a third host and region value: under xxhash "host=a" and "host=b" fall into the same shard modulo 2
+// and modulo 4, so with two values hash pruning can only lose data with 3 shards.
+func c11SetTier(thorough bool) {
+	if thorough && len(c11TagCombos) == 7 {
+		c11TagCombos = append(c11TagCombos, [2]string{"c", "x"}, [2]string{"c", "z"})
+	}
+}
+
 // c11Times returns (phase-1 times, phase-2 times). Phase 1 is written before the re-sharding (range) and never
 // touches B2.. nor ..B0-1, so that those groups are created after the re-sharding.
 func c11Times(c c11Config, thorough bool) (p1, p2 []int64) {
@@ -725,48 +733,64 @@ type c11Case struct {
 
 // ---- spec-level model of "which tag-equality sets confine the condition" (only used to name the kind of a miss)
 
+// c11Res is the residual condition: time atoms removed (a node that loses one operand is replaced by the other).
+// paren: the node stood inside parentheses in the query text.
+type c11Res struct {
+	atom  *c11Atom
+	op    string
+	l, r  *c11Res
+	paren bool
+}
+
+func (n *c11Cond) residual(paren bool) *c11Res {
+	if n.Atom != nil {
+		if n.Atom.Time != nil {
+			return nil
+		}
+		return &c11Res{atom: n.Atom}
+	}
+	l, r := n.L.residual(true), n.R.residual(true)
+	if l == nil {
+		return r
+	}
+	if r == nil {
+		return l
+	}
+	return &c11Res{op: n.Op, l: l, r: r, paren: paren}
+}
+
 type c11Cons struct {
 	unconstrained bool
 	sets          int
 }
 
-// cons: opaque = the node stands inside parentheses in the query text. The unchanged getConditionTags has no
-// ParenExpr case, so for it a parenthesised subtree carries no tag constraint.
-func (n *c11Cond) cons(opaqueParens, inner bool) (c c11Cons, absent bool) {
-	if n.Atom != nil {
-		if n.Atom.Time != nil {
-			return c11Cons{}, true
-		}
-		switch n.Atom.Text {
+// cons: with opaqueParens a parenthesised operand carries no tag constraint - the unchanged getConditionTags has no
+// ParenExpr case (parentheses around the whole residual condition are dropped by the planner, so the root is never opaque).
+func (n *c11Res) cons(opaqueParens, root bool) c11Cons {
+	if n.atom != nil {
+		switch n.atom.Text {
 		case "host = 'a'", "host = 'b'", "host = 'c'", "region = 'x'", "region = 'y'":
-			return c11Cons{sets: 1}, false
+			return c11Cons{sets: 1}
 		}
-		return c11Cons{unconstrained: true}, false
+		return c11Cons{unconstrained: true}
 	}
-	l, la := n.L.cons(opaqueParens, true)
-	r, ra := n.R.cons(opaqueParens, true)
-	if la {
-		return r, ra
+	if opaqueParens && n.paren && !root {
+		return c11Cons{unconstrained: true}
 	}
-	if ra {
-		return l, false
-	}
-	if opaqueParens && inner {
-		return c11Cons{unconstrained: true}, false
-	}
-	if n.Op == "AND" {
+	l, r := n.l.cons(opaqueParens, false), n.r.cons(opaqueParens, false)
+	if n.op == "AND" {
 		switch {
 		case l.unconstrained:
-			return r, false
+			return r
 		case r.unconstrained:
-			return l, false
+			return l
 		}
-		return c11Cons{sets: l.sets * r.sets}, false
+		return c11Cons{sets: l.sets * r.sets}
 	}
 	if l.unconstrained || r.unconstrained {
-		return c11Cons{unconstrained: true}, false
+		return c11Cons{unconstrained: true}
 	}
-	return c11Cons{sets: l.sets + r.sets}, false
+	return c11Cons{sets: l.sets + r.sets}
 }
 
 // c11MissKind names the shape of the condition whose pruning lost a shard:
@@ -776,36 +800,34 @@ func (n *c11Cond) cons(opaqueParens, inner bool) (c c11Cons, absent bool) {
 //   - anything else.
 func c11MissKind(cc c11CondCase, direct bool) string {
 	opaque := !direct && !cc.plain
+	res := cc.tree.residual(false)
+	if res == nil {
+		return "shard_with_match_pruned"
+	}
 	orMixed, andOverOr := false, false
-	var walk func(x *c11Cond, inner bool)
-	walk = func(x *c11Cond, inner bool) {
-		if x.Atom != nil {
-			return
-		}
-		if opaque && inner {
+	var walk func(x *c11Res, root bool)
+	walk = func(x *c11Res, root bool) {
+		if x.atom != nil || (opaque && x.paren && !root) {
 			return // the implementation does not look inside
 		}
-		l, la := x.L.cons(opaque, true)
-		r, ra := x.R.cons(opaque, true)
-		if !la && !ra {
-			if x.Op == "OR" && l.unconstrained != r.unconstrained {
-				orMixed = true
-			}
-			if x.Op == "AND" && !l.unconstrained && !r.unconstrained && r.sets > 1 {
-				andOverOr = true
-			}
+		l, r := x.l.cons(opaque, false), x.r.cons(opaque, false)
+		if x.op == "OR" && l.unconstrained != r.unconstrained {
+			orMixed = true
 		}
-		walk(x.L, true)
-		walk(x.R, true)
+		if x.op == "AND" && !l.unconstrained && !r.unconstrained && r.sets > 1 {
+			andOverOr = true
+		}
+		walk(x.l, false)
+		walk(x.r, false)
 	}
-	walk(cc.tree, false)
-	c, absent := cc.tree.cons(opaque, false)
+	walk(res, true)
+	c := res.cons(opaque, true)
 	switch {
 	case orMixed:
 		return "or_operand_without_tag_constraint_pruned"
 	case andOverOr:
 		return "and_with_or_group_flattened"
-	case !absent && !c.unconstrained && c.sets > 1:
+	case !c.unconstrained && c.sets > 1:
 		return "or_groups_share_key_buffer"
 	}
 	return "shard_with_match_pruned"
@@ -1147,6 +1169,7 @@ func TestVerifC11(t *testing.T) {
 			t.Fatal(err)
 		}
 		thorough := c.Tier == "thorough"
+		c11SetTier(thorough)
 		var conds []c11CondCase
 		for _, cc := range c11Conds(c11Atoms(thorough)) {
 			if cc.name() == c.Where {
@@ -1158,6 +1181,7 @@ func TestVerifC11(t *testing.T) {
 		return
 	}
 	thorough := kit.Thorough()
+	c11SetTier(thorough)
 	cfgs := c11Configs(thorough)
 	conds := c11Conds(c11Atoms(thorough))
 	rep.Note("configurations=%d conditions=%d", len(cfgs), len(conds))
